@@ -343,7 +343,10 @@ def solveCaseG (byName : Bool) : P String := do
     -- per attempted Rosenbrock step: the alpha handed to AlphaMinusJacobian and the error norm (first 48)
     let att := if integ == 0 && traceLimit > 0 then
         " ".intercalate ((res.trace.take 48).map fun a => s!"{showF a.alpha}:{showF a.error}") else ""
-    let extra := if byName then s!" col={showNs perm} atol={showFs (perm.map fun i => atol.getD i 0.0)}" else ""
+    -- by-name variant: the forcing at the initial state, reported per species name
+    let f0 : Mat Float := pr.cfg.forcing K Y (Y.map fun row => row.map fun _ => 0.0)
+    let f0n := f0.map fun row => (perm.map fun i => rd row i).toArray
+    let extra := if byName then s!" col={showNs perm} atol={showFs (perm.map fun i => atol.getD i 0.0)} f0={showMat f0n}" else ""
     pure s!"solve status={statusStr res.status} final={showF res.finalTime} stats={showStats res.stats} y={showMat Yf}{extra} trace={showTrace pr.cfg res.trace traceLimit} att={att}"
 
 def solveCase : P String := solveCaseG false
